@@ -3851,3 +3851,104 @@ def emit_struct5(o, repo, T):
                 '    List N × Option N × List (List Nat) × List (List Nat) :=\n'
                 f'  {body}')
     o.const('cltree.get_scopes.loop', get_scopes_loop)
+
+    # ---- `build_xpc` (deeprob/spn/learning/xpc.py): the same post-order walk over the partition tree; children pushed REVERSED ----
+    def build_xpc_loop():
+        q = 'build_xpc'
+        xpc = T.parse_file(repo, 'deeprob/spn/learning/xpc.py')
+        fn = T.find_func(xpc, q)
+        stmts = nodoc(fn.body)
+        loop = T.the([s for s in stmts if isinstance(s, ast.While)], f'{q}: while loop')
+        k = stmts.index(loop)
+        before, after = stmts[:k], stmts[k + 1:]
+        # the parameters by POSITION (renaming one consistently changes nothing); none of them is assigned anywhere in the function
+        params = [a.arg for a in fn.args.args]
+        if len(params) != 6 or fn.args.vararg or fn.args.kwarg or fn.args.kwonlyargs or fn.args.posonlyargs:
+            raise U(f'{q}: expected six plain parameters (data, part_root, trees_dict, det, use_clt, alpha), found {params}')
+        p_data, p_root, p_trees, p_det, p_clt, p_alpha = params
+        for n in ast.walk(fn):
+            if isinstance(n, ast.Name) and isinstance(n.ctx, (ast.Store, ast.Del)) and n.id in params:
+                raise U(f'{q}: the parameter {n.id} is assigned inside the function')
+        # `build_leaf` is opaque; its declared parameter order ties the call's argument positions to their meaning
+        bl = T.find_func(xpc, 'build_leaf')
+        if [a.arg for a in bl.args.args] != ['data', 'part', 'use_clt', 'trees_dict', 'det', 'alpha']:
+            raise U(f'build_leaf: parameters {[a.arg for a in bl.args.args]}')
+        # the names used in the loop are the node classes / `assign_ids` of structure/node.py and are not rebound
+        imported = {a.asname or a.name for s in xpc.body if isinstance(s, ast.ImportFrom) and s.module == 'deeprob.spn.structure.node'
+                    for a in s.names}
+        if not {'Sum', 'Product', 'assign_ids'} <= imported:
+            raise U(f'{q}: Sum / Product / assign_ids are not imported from deeprob.spn.structure.node')
+        for n in ast.walk(fn):
+            if isinstance(n, ast.Name) and isinstance(n.ctx, ast.Store) and n.id in ('Sum', 'Product', 'assign_ids', 'build_leaf', 'len', 'isinstance'):
+                raise U(f'{q}: {n.id} is rebound inside the function')
+        # `Partition`: membership in `sub_partitions` is OBJECT IDENTITY (no __eq__), and the two tests are what the model reads them as
+        parting = T.parse_file(repo, 'deeprob/spn/utils/partitioning.py')
+        pcls = T.the([s for s in parting.body if isinstance(s, ast.ClassDef) and s.name == 'Partition'], 'class Partition')
+        if pcls.bases or any(isinstance(s, ast.FunctionDef) and s.name in ('__eq__', '__ne__', '__hash__', '__getattr__', '__getattribute__')
+                             for s in pcls.body):
+            raise U('Partition: has base classes or defines __eq__ / __hash__ / __getattr__: `in sub_partitions` is no longer an identity test')
+        for s in pcls.body:
+            if isinstance(s, ast.FunctionDef) and any(isinstance(d, ast.Name) and d.id == 'property' for d in s.decorator_list):
+                raise U(f'Partition.{s.name}: a property (attribute reads are read as plain fields)')
+        check_texts('Partition.is_partitioned', 'body', [txt(s) for s in nodoc(T.find_func(parting, 'Partition.is_partitioned').body)],
+                    ['return len(self.sub_partitions) != 0'])
+        check_texts('Partition.is_horizontally_partitioned', 'body',
+                    [txt(s) for s in nodoc(T.find_func(parting, 'Partition.is_horizontally_partitioned').body)],
+                    ['ret = False', ast.unparse(ast.parse('if self.is_partitioned():\n    ret = len(self.row_ids) > len(self.sub_partitions[0].row_ids)')),
+                     'return ret'])
+        # roles: the stack is the loop condition, `last` the variable initialised with None, the buffer the one initialised with []
+        if not isinstance(loop.test, ast.Name):
+            raise U(f'{q}: the loop condition is not a variable')
+        stack, last, bufs, roots = loop.test.id, [], [], []
+        for st in before:
+            if not (isinstance(st, ast.Assign) and len(st.targets) == 1 and isinstance(st.targets[0], ast.Name)):
+                raise U(f'{q}: statement before the loop is not a plain assignment: {txt(st)}')
+            a, b = st.targets[0].id, st.value
+            if isinstance(b, ast.Constant) and b.value is None:
+                last.append(a)
+            elif isinstance(b, ast.List) and not b.elts:
+                bufs.append(a)
+            elif a == stack and isinstance(b, ast.List) and len(b.elts) == 1 and isinstance(b.elts[0], ast.Name):
+                roots.append(b.elts[0].id)
+            else:
+                raise U(f'{q}: unexpected statement before the loop: {txt(st)}')
+        if len(last) != 1 or len(bufs) != 1 or roots != [p_root]:
+            raise U(f'{q}: expected `<stack> = [<2nd parameter>]`, one variable initialised with None and one with [], found {roots}, {last}, {bufs}')
+        last, buf = last[0], bufs[0]
+        # epilogue: `<x> = <buffer>[0]; assign_ids(<x>); return <x>`
+        if not (len(after) == 3 and isinstance(after[0], ast.Assign) and len(after[0].targets) == 1 and isinstance(after[0].targets[0], ast.Name)):
+            raise U(f'{q}: after the loop: {[txt(s) for s in after]}')
+        res = after[0].targets[0].id
+        names = {stack: 'partitions_stack', last: 'last_part_visited', buf: 'pc_nodes_stack', p_root: 'part_root', res: 'xpc'}
+        if len(names) != 5:
+            raise U(f'{q}: the roles of the variables overlap: {names}')
+        c = canon(names)
+        check_texts(q, 'the statements before the loop', [c(s) for s in before],
+                    ['partitions_stack = [part_root]', 'pc_nodes_stack = []', 'last_part_visited = None'])
+        if [c(s) for s in after] != ['xpc=pc_nodes_stack[0]', 'assign_ids(xpc)', 'returnxpc']:
+            raise U(f'{q}: after the loop: {[c(s) for s in after]}, expected `xpc = pc_nodes_stack[0]; assign_ids(xpc); return xpc`')
+        lp = listprog.LP(T, q, [(stack, 'partitions_stack'), (last, 'last_part_visited'), (buf, 'pc_nodes_stack')],
+                         methods={'is_partitioned': 'isPartitioned', 'is_horizontally_partitioned': 'isHorizontallyPartitioned'},
+                         ctors={'Sum': ('mkSum', [], ['weights', 'children']), 'Product': ('mkProduct', [], ['children'])},
+                         tables={},
+                         attrs={'sub_partitions': 'subPartitions', 'row_ids': 'rowIds', 'children': 'children'},
+                         classes={'Product': 'isProduct', 'Sum': 'isSum'},
+                         opaque={'build_leaf': ('buildLeaf', [p_data, None, p_clt, p_trees, p_det, p_alpha])},
+                         div='div')
+        body = lp.loop_step(loop, 'part')
+        return ('/-- `build_xpc` (learning/xpc.py): one iteration of `while partitions_stack:` as a function of the loop state '
+                '(`partitions_stack`, `last_part_visited`, `pc_nodes_stack`), started from `([part_root], None, [])`; after the loop '
+                '`xpc = pc_nodes_stack[0]; assign_ids(xpc); return xpc`.  `isPartitioned` / `isHorizontallyPartitioned` = the methods of '
+                '`Partition` (bodies checked: `len(self.sub_partitions) != 0`, `len(self.row_ids) > len(self.sub_partitions[0].row_ids)` when '
+                'partitioned), `subPartitions` / `rowIds` / `children` = attribute reads, `isIn` = identity membership (`Partition` defines no '
+                '`__eq__`: checked), `isProduct c` / `isSum c` = `isinstance(c, Product)` / `isinstance(c, Sum)`, `div a b` = `a / b` on two '
+                'lengths (uninterpreted), `mkSum w cs` = `Sum(weights=w, children=cs)`, `mkProduct cs` = `Product(children=cs)`, `buildLeaf p` = '
+                '`build_leaf(data, p, use_clt, trees_dict, det, alpha)` with the function\'s own parameters in the declared positions (opaque). '
+                'Bound variables of comprehensions / `for` loops are named `x<depth>`. -/\n'
+                'def S5buildXpcStep {P C W : Type} (isPartitioned isHorizontallyPartitioned : P → Bool) (subPartitions : P → List P)\n'
+                '    (rowIds : P → List Nat) (isIn : Option P → List P → Bool) (children : C → List C) (isProduct isSum : C → Bool)\n'
+                '    (div : Nat → Nat → W) (mkSum : List W → List C → C) (mkProduct : List C → C) (buildLeaf : P → C)\n'
+                '    (partitions_stack : List P) (last_part_visited : Option P) (pc_nodes_stack : List C) :\n'
+                '    List P × Option P × List C :=\n'
+                f'  {body}')
+    o.const('xpc.build_xpc.loop', build_xpc_loop)
